@@ -32,7 +32,8 @@ def run_model(ref, lines, timeout=1500):
             soft, hard = resource.getrlimit(resource.RLIMIT_STACK)
             resource.setrlimit(resource.RLIMIT_STACK, (hard, hard))
     try:
-        r = subprocess.run([ref], input=('\n'.join(lines) + '\n').encode(), capture_output=True, timeout=timeout, preexec_fn=big_stack)
+        r = subprocess.run([ref], input=('\n'.join(lines) + '\n').encode(), capture_output=True, timeout=timeout, preexec_fn=big_stack,
+                           env=dict(os.environ, OCAMLRUNPARAM='s=64M'))   # large minor heap: each minor collection scans the deep stack
     except subprocess.TimeoutExpired:
         raise RuntimeError('%s timed out' % ref)
     if r.returncode != 0:
@@ -167,7 +168,7 @@ def mutate(rng, enc):
     return bytes(b)
 
 
-def hostile_fixed(C):
+def hostile_fixed(C, thorough=False):
     S, A, V, I = C['TAG_STRING'], C['TAG_ARRAY'], C['TAG_VOID'], C['TAG_INT']
     out = []
     for l in [0xffffffff, 0xfffffffe, 0xfffffffd, 0xfffffffc, 0xfffffffb, 0xfffffffa, 0x80000000, 0x7fffffff]:
@@ -177,7 +178,7 @@ def hostile_fixed(C):
         for tail in [b'', bytes([V]), bytes([V, V]), bytes([I, 1]), bytes([S, 1, 0, 0, 0, 65]), bytes([S, 0xff, 0xff, 0xff, 0xff])]:
             out.append(bytes([A, 1]) + struct.pack('<I', c) + tail)
     out.append(bytes([A, 1]) + struct.pack('<I', 2) + bytes([A, 1]) + struct.pack('<I', 0xffffffff) + bytes([V]))
-    for depth in (255, 256, 257, 1000, 100000):
+    for depth in (255, 256, 257, 1000) + ((100000,) if thorough else ()):
         out.append((bytes([A, 1]) + struct.pack('<I', 1)) * depth + bytes([V]))
     return out
 
@@ -206,7 +207,7 @@ def codec_lines(ck, C):
         if n <= 4096:
             for _ in range(6 if ck.thorough else 2):
                 hostile.append('desx ' + (mutate(rng, enc).hex() or '-'))
-    for h in hostile_fixed(C):
+    for h in hostile_fixed(C, ck.thorough):
         hostile.append('desx ' + h.hex())
     for _ in range(4000 if ck.thorough else 500):
         hostile.append('desx ' + (bytes(rng.choice([0, 1, 3, 4, 5, 7, 14, rng.randrange(256)]) if rng.random() < 0.5 else rng.randrange(256)
@@ -655,7 +656,13 @@ def corpus_programs():
 def run(ck):
     b = ck.build('plain')
     ck.build('asan')
-    ck.gen(['gen_cop'])
+    try:
+        ck.gen(['gen_cop'])
+    except Exception as e:
+        # the sources no longer have the shape the translator reads (e.g. a limit the model describes is gone): the theorems
+        # are not re-established; keep going with the last generated constants to look for a concrete failing input
+        ck.proof['broken'].append('translator: %s' % str(e)[:300])
+        ck.note('translator failed: %s' % str(e)[:200])
     C = read_consts()
     proved = ck.prove()
     if ck.thorough and proved:
